@@ -290,12 +290,17 @@ def forked(fn, timeout=120.0):
     return val
 
 
-def run_one(prop, seed, batch, replay=None, want_ops=False, timeout=180.0):
+RUN_TIMEOUT = {"C20": 480.0, "C18": 300.0}     # wall limit per run (rare large systems / traced sweeps under load)
+
+
+def run_one(prop, seed, batch, replay=None, want_ops=False, timeout=None):
     """Execute one run in a forked child and return its result dict.
 
     A child killed by a signal while executing repository (or peer) code is not a harness
     error: the run is repeated with an operation journal, and the crash is reported as a
     violation at the operation that was executing."""
+    if timeout is None:
+        timeout = RUN_TIMEOUT.get(prop, 180.0)
     root = tempfile.mkdtemp(prefix="pmsim-", dir=SHM)
     fd, jpath = tempfile.mkstemp(prefix="pmsim-journal-", dir=SHM)
     os.close(fd)
